@@ -145,6 +145,9 @@ def replay_ops(cfg: dict, ops: list[dict], gap: float = 0.0, reuse=None, second=
                     r = 1 if o["k"] in c else 0
                 elif o["op"] == "len":
                     r = len(c)
+                elif o["op"] == "wipe":       # another DiskCache object on the same directory clears it
+                    make_cache(dict(cur, lsize=0), tmpdir).clear()
+                    r = None
                 elif o["op"] == "reopen" and cfg.get("xproc") and tmpdir:
                     # the directory is reopened by ANOTHER interpreter (other hash seed); it runs the rest of the history
                     cur = dict(cur, max=o["max"], lsize=o["lsize"])
@@ -338,6 +341,8 @@ def random_ops(rng: random.Random, cfg: dict, n: int) -> list[dict]:
             ops.append({"op": "clear"})
         elif x < 0.95:
             ops.append({"op": "in", "k": k})
+        elif cfg["kind"] == "disk" and x < 0.96:
+            ops.append({"op": "wipe"})
         elif cfg["kind"] == "disk" and x < 0.975:
             ops.append({"op": "reopen", "max": rng.randint(1, cfg["max"] + 1), "lsize": cfg["lsize"]})
         else:
